@@ -19,7 +19,7 @@ ASSUMPTIONS = ["finite-difference derivative with Richardson extrapolation is ac
                "coordinates; coordinates failing the smoothness test at h=1e-4 and 1e-6 are treated as kinks and skipped"]
 EVAL_COUNTER = "grad_calls"
 REQUIRED = {"quick": {"grad_calls": 1500, "coords_compared": 4000, "dirs_compared": 1500, "clipped_entries_checked": 200,
-                      "same_score_checked": 1500, "insitu_calls_checked": 50,
+                      "same_score_checked": 1500, "insitu_calls_checked": 50, "inplace_refreshed_grad_calls": 120,
                       "cmp:KLGEMINI": 100, "cmp:TVGEMINI": 100, "cmp:HellingerGEMINI": 100, "cmp:ChiSquareGEMINI": 100,
                       "cmp:MMDGEMINI": 200, "cmp:WassersteinGEMINI": 200},
             "thorough": {"grad_calls": 20000, "coords_compared": 100000, "insitu_calls_checked": 1000}}
@@ -219,6 +219,18 @@ def run_case(case, ctx, st):
                             "info": dict(info, gemini=d2, second_call="user-epsilon")}
                 ctx.count("user_epsilon_calls")
                 gen.gemini_from_desc(d2)(P, A, return_grad=True)
+            if idx % 4 == 2 and A is not None and isinstance(A, np.ndarray) and A.flags.writeable:
+                # the same object again, on the same affinity array rescaled / refreshed in place, and on a prediction
+                # buffer refreshed in place: the gradient returned now is the derivative of the score returned now
+                rng3 = gen.rng_for(case["seed"], ID, "refresh", idx)
+                A *= float(rng3.choice([0.25, 3.0]))
+                if rng3.random() < 0.5:
+                    A += np.diag(np.abs(rng3.normal(size=len(A)))) * float(np.max(np.abs(A))) * (0.0 if info["gemini"].get("cls") == "WassersteinGEMINI" else 0.5)
+                P[:] = gen.predictions(rng3, P.shape[0], P.shape[1], float(rng3.choice([0.5, 2.0])))[0]
+                ctx.case = {"kind": "direct", "seed": case["seed"], "i0": idx, "i1": idx + 1, "tier": case.get("tier"),
+                            "info": dict(info, second_call="same-object-arrays-refreshed-in-place")}
+                ctx.count("inplace_refreshed_grad_calls")
+                gem(P, A, return_grad=True)
             if idx % 7 == 0:
                 # exact zeros / one-hot rows: clipped entries must get zero gradient
                 Q = np.zeros_like(P)
